@@ -297,6 +297,26 @@ func c01Enqueue(r *core.Run, a *svcAnchors, e *lockEngine) {
 			}
 		}
 	}
+	if lookup != nil {
+		// the lookup is here but the registration / push sits in a private helper: judge the unit
+		pushHere, pushInHelper := false, false
+		for _, ac := range core.FieldAccesses(p.Helpers(fn), func(f core.Field) bool { return f == a.WorkQueue }) {
+			if ac.Kind != "store" {
+				continue
+			}
+			if c, ok := ac.Instr.(*ssa.Store).Val.(*ssa.Call); ok && core.CalleeName(c) == "builtin:append" {
+				if ac.Fn == fn {
+					pushHere = true
+				} else {
+					pushInHelper = true
+				}
+			}
+		}
+		if !pushHere && pushInHelper {
+			c01EnqueueUnit(r, a, e, gparam)
+			return
+		}
+	}
 	if lookup == nil {
 		// the steps of the critical section may be spread over private helpers (look up, create,
 		// register): judge the unit as a whole
